@@ -133,7 +133,7 @@ async fn wait_sessions(app: &NetApp, n: usize) -> bool {
 pub async fn run_history(h: &History) -> Vec<(String, String)> {
     let mut problems: Vec<(String, String)> = vec![];
     let (mut handle, addr, app) = if h.tls {
-        let c = Cell { min13: false, self_signed: false, authz: false, rodbus_is_server: true, peer: PeerVersions::Both, cert: CertKind::Valid, spawn: false };
+        let c = Cell { min13: false, self_signed: false, authz: false, rodbus_is_server: true, peer: PeerVersions::Both, cert: CertKind::Valid, spawn: false, ctor: 0 };
         match start_tls_server(&c, "ca_a", AddressFilter::Any, "127.0.0.1", h.max_sessions).await {
             Ok(s) => (Some(s.handle), s.addr, s.app),
             Err(e) => return vec![("MACHINERY:server-start".into(), e)],
